@@ -1,0 +1,15 @@
+//go:build !verif
+
+package rtpconn
+
+const (
+	VerifTraceStored = iota
+	VerifTraceLoopNACK
+	VerifTraceWriterNACK
+)
+
+// verifTrace and verifTraceSeqnos are trace points for builds with the
+// "verif" tag; in normal builds they are empty and inlined away.
+func verifTrace(track *rtpUpTrack, kind int, a, b uint16) {}
+
+func verifTraceSeqnos(track *rtpUpTrack, kind int, seqnos []uint16) {}
